@@ -345,6 +345,13 @@ def r06_2(ctx):
         edges, reg = _verify_arm(ctx, dn)
         if reg is not None:
             z = cmp_holds_edges(dn, ctx.lib, "eq", lambda lv: has_field(lv, "rem"), lambda lv: has_const(lv, "0_u64"))
+            # .. or the `0` arm of a match on the value itself (`CtxOut::Verify { rem: 0, .. } => Ok(())`)
+            for sbb in C.switches(dn):
+                c = C.switch_cond(dn, sbb)
+                if c.kind == "int" and c.src and all(l.kind == "field" and has_field([l], "rem") for l in c.src):
+                    for eid, succ, lab in dn.edges(sbb):
+                        if lab is not None and lab[0] == "val" and lab[1] == 0:
+                            z = set(z) | {eid}
             # for the Verify variant an Ok return is reachable only through the rem == 0 edge (the Ok arm may be shared with other
             # variants: `Verify {..} if *rem != 0 => Err(..), Verify {..} | Clean => Ok(())`)
             me = modes(ctx).mode_edges(dn)
@@ -780,6 +787,8 @@ FORWARD_NEUTRAL = {
     "std::result::Result::<T, E>::map_err",
     "<std::result::Result<T, F> as std::ops::FromResidual<std::result::Result<std::convert::Infallible, E>>>::from_residual",
     "<std::vec::Vec<T, A> as std::ops::Deref>::deref", "std::vec::Vec::<T, A>::as_slice",
+    # views of an optional buffer (`stored_content(..)? -> Option<Vec<u8>>` compared as `current.as_deref() == Some(fresh)`)
+    "std::option::Option::<T>::as_deref", "std::option::Option::<T>::as_ref", "std::option::Option::<&T>::copied",
 }
 
 
@@ -1248,3 +1257,168 @@ def r08_6(ctx):
                           "build then depends on whether the target was already there" % (role, ctx.site(b, bad[1])["loc"]), site=ctx.site(b, bad[0]))
         else:
             ctx.ok("%s|no self-made error depends on an existence probe" % role, site=ctx.site(b, min(e[0] for e in probes)))
+
+
+@rule("C09", "R09.7", floor=2)
+def r09_7(ctx):
+    """a missing output is not an up-to-date output: what the needed-build compares with the fresh text is the bytes read from the
+    existing file and nothing that stands in for them (= C08 R08.2) — `read(..).unwrap_or_default()` makes "no file" equal to an empty
+    fresh output, and the needed-build then creates nothing where a normal build writes an empty file"""
+    r08_2(ctx)
+
+
+@rule("C07", "R07.11", floor=1)
+def r07_11(ctx):
+    """a line that is rejected leaves no directive pending: in iterate_directive no error return is reachable after a directive was stored
+    into `cur_directive` (without it being taken out again). The build stops at such an error; clean swallows it and goes on parsing — with
+    a malformed, prefix-less `temp` still open it would absorb every following line and, at the end of the file, delete the file it
+    names, which no build can have generated."""
+    lib = ctx.lib
+    it = body(ctx, "iterate_directive")
+    if not it:
+        return
+    from rules_dir import built_variant
+    on_field = lambda op: has_field(C.trace(it, op, through_fields=True), "cur_directive")
+    stores, resets = [], []
+    for bb, t in it.calls():
+        nm = C.callee_name(t) or ""
+        if not t["args"] or not on_field(t["args"][0]):
+            continue
+        if nm in ("std::option::Option::<T>::insert", "std::option::Option::<T>::get_or_insert", "std::option::Option::<T>::get_or_insert_with",
+                  "std::option::Option::<T>::replace"):
+            stores.append(bb)
+        elif nm in ("std::option::Option::<T>::take", "std::mem::take"):
+            resets.append(bb)
+    for bb, si, st in it.stmts():
+        if st["k"] == "assign" and st["lhs"]["p"] and st["lhs"]["p"][-1].get("name") == "cur_directive":
+            v = built_variant(it, st["rv"]["op"]) if st["rv"]["k"] == "use" else (st["rv"].get("agg", {}).get("variant") if st["rv"]["k"] == "aggregate" else None)
+            (resets if v == "None" else stores).append(bb)
+    errs = sorted(err_sites(it))
+    if not errs or not (stores or resets):
+        ctx.unverified("iterate_directive has no error return / no store of cur_directive in the reviewed shape", site=ctx.site(it, 0))
+        return
+    bad = None
+    for s_ in stores:
+        reach = C.after_edges(it, out_edges(it, [s_]), cut=out_edges(it, resets))
+        for e in errs:
+            if e in reach:
+                bad = (s_, e)
+    if bad:
+        ctx.violation([it.name, "error-with-directive-pending"], "iterate_directive can return an error after storing the directive it rejects "
+                      "(stored at %s): in clean mode the error is swallowed and the malformed directive stays open" % ctx.site(it, bad[0])["loc"],
+                      site=ctx.site(it, bad[1]))
+    else:
+        ctx.ok("no error return of iterate_directive leaves a directive pending (%d error sites, %d stores)" % (len(errs), len(stores)), site=ctx.site(it, errs[0]))
+
+
+def _cli_flags_of_subcommand(ctx, dst, src):
+    """the flags that reach Config are those of the (sub)command in effect: inside the arm of a subcommand, Config.<dst> is given the
+    `<src>` flag of THAT subcommand's own arguments (a place under the variant's payload); outside every subcommand arm, the top-level
+    one — an arm copied from its neighbour that still reads `self.<flags>` silently ignores what the user typed after the subcommand"""
+    binp = ctx.bin
+    if binp is None:
+        ctx.anchor_missing("binary crate facts")
+        return
+    ca = ctx.role(binp, "txtpp::main")
+    if not ca:
+        return
+    cmd_adt = next((p_ for p_ in binp.adts if p_.endswith("::Command") or p_ == "txtpp::Command"), None)
+    if cmd_adt is None:
+        ctx.anchor_missing("enum Command of the CLI")
+        return
+    variants = [v["name"] for v in binp.adts[cmd_adt]["variants"]]
+    regions = {}
+    for v in variants:
+        e = enum_edges(ca, binp, cmd_adt, lambda vs, v=v: vs == {v})
+        regions[v] = C.exclusive_region(ca, e) if e else set()
+    copies = lambda tt: C.is_transparent(tt) or T.item_preserving(C.callee_name(tt)) or \
+        (C.callee_name(tt) or "").endswith(("::to_vec", "::to_owned", "::clone", "::to_string", "::into", "::collect", "::into_iter"))
+    n = 0
+    for bb, op, st in field_values(ca, CLI_CONFIG, dst):
+        if op is None and st.get("k") == "assign" and st["rv"]["k"] == "unop":
+            op = st["rv"]["a"]          # `config.x = !flags.no_x`
+        if op is None:
+            continue
+        lv = C.trace(ca, op, through_fields=True, transparent=copies)
+        flag_leaves = [l for l in lv if l.kind == "field" and [nm for (o, v, nm) in C.pl_fields(l.data)][-1:] == [src]
+                       and not any(o in CLI_CONFIG for (o, v, nm) in C.pl_fields(l.data))]
+        if not flag_leaves:
+            continue
+        n += 1
+        here = [v for v in variants if bb in regions[v]]
+        judged = []          # (variants of the arm the value was chosen in, variants the chosen place lies under)
+        if here:
+            un = set()
+            for l in lv:
+                if l.kind == "field":
+                    un |= {v for (o, v, nm) in C.pl_fields(l.data) if o == cmd_adt and v}
+            judged.append((here, un))
+        else:
+            # the store sits after the arms (`let (mode, flags, build) = match sub { .. }; build.apply_to(config)`): go back to the local
+            # the arms assign and judge each assignment in its arm
+            pl = C.op_place(op)
+            L, hops = None, 0
+            while pl is not None and hops < 16:
+                hops += 1
+                ds = ca.defs().get(pl["l"], [])
+                if len(ds) > 1:
+                    L = pl["l"]
+                    break
+                if len(ds) != 1:
+                    break
+                rec = ds[0]
+                nxt = None
+                if rec[0] == "assign":
+                    rv = rec[3]["rv"]
+                    if rv["k"] in ("use", "cast"):
+                        nxt = C.op_place(rv["op"])
+                    elif rv["k"] in ("ref", "copyforderef"):
+                        nxt = rv["pl"]
+                    elif rv["k"] == "aggregate" and len(rv["ops"]) == 1:
+                        nxt = C.op_place(rv["ops"][0])
+                elif rec[0] == "call" and rec[2]["args"] and copies(rec[2]):
+                    nxt = C.op_place(rec[2]["args"][0])
+                pl = nxt
+            if L is None:
+                judged = [([], {v for (o, v, nm) in C.pl_fields(l.data) if o == cmd_adt and v}) for l in flag_leaves]
+            else:
+                for rec in ca.defs()[L]:
+                    dbb = rec[1]
+                    ops_ = []
+                    if rec[0] == "assign":
+                        rv = rec[3]["rv"]
+                        ops_ = [rv["op"]] if rv["k"] in ("use", "cast") else ([{"k": "copy", "pl": rv["pl"]}] if rv["k"] in ("ref", "copyforderef") else rv.get("ops", []))
+                    elif rec[0] == "call":
+                        ops_ = rec[2]["args"][:1]
+                    dl = [x for o_ in ops_ for x in C.trace(ca, o_, through_fields=True, transparent=copies) if x.kind == "field"
+                          and not any(o in CLI_CONFIG for (o, v, nm) in C.pl_fields(x.data))]
+                    if not dl:
+                        continue
+                    arm = [v for v in variants if dbb in regions[v]]
+                    # (through_fields also reports the containers a place sits in — `cli.subcommand` —: one verdict per assignment)
+                    un = set()
+                    for x in dl:
+                        un |= {v for (o, v, nm) in C.pl_fields(x.data) if o == cmd_adt and v}
+                    judged.append((arm, un))
+        bad = None
+        for arm, under in judged:
+            if arm and not (under and under <= set(arm)):
+                bad = ("in the `%s` arm Config.%s is given the top-level `%s` flag (or another subcommand's) instead of the one that follows "
+                       "`%s` on the command line" % (arm[0].lower(), dst, src, arm[0].lower()), arm[0])
+            elif not arm and under:
+                bad = ("outside the subcommand arms Config.%s is given the `%s` flag of subcommand %s" % (dst, src, sorted(under)), "top")
+        if bad:
+            ctx.violation(["cli-flags-of-subcommand", dst, bad[1]], bad[0], site=ctx.site(ca, bb))
+        else:
+            ctx.ok("Config.%s <- `%s` of the command in effect (%d origins judged)" % (dst, src, len(judged)), site=ctx.site(ca, bb))
+    if n == 0:
+        ctx.unverified("no store of the `%s` flag into Config.%s found in main's normal form" % (src, dst), site=ctx.site(ca, 0))
+
+
+@rule("C09", "R09.8", floor=1)
+def r09_8(ctx):
+    """the needed-build's compare-and-write happens for every file that completes: the line processor reports `PpResult::Ok` only past the
+    success edge of `IOCtx::done()` (= C02 R02.5) — a normal build survives a skipped `done()` because dropping the writer flushes it;
+    the needed-build does its only write there, so a stale output stays stale and a missing one missing"""
+    import rules_sched
+    rules_sched.r02_5(ctx)
